@@ -226,6 +226,10 @@ func (g *corpusGen) lists(terms []term, used int) [][]string {
 }
 
 func genCorpus(seed uint64, size int) *proto.Corpus {
+	nSpell := 2
+	if size > 4000 {
+		nSpell = 5
+	}
 	g := &corpusGen{r: &rnd{mix(seed, 0xc0)}, seen: map[string]bool{}}
 	g.active = spdxlicenses.GetLicenses()
 	g.deprecated = spdxlicenses.GetDeprecated()
@@ -319,6 +323,11 @@ func genCorpus(seed uint64, size int) *proto.Corpus {
 		g.add(proto.Call{Fn: proto.FnValidate, List: rv, Fam: g.fam, Tag: "long"})
 	}
 
+	// systematic spelling families: every way of writing one identifier (letter case of
+	// the id and of its -only / -or-later suffix, '+', WITH), through every function and
+	// in both argument positions. These are the inputs a sloppily keyed cache confuses.
+	g.spellingFamilies(nSpell)
+
 	// generated families from the tree's own tables
 	for len(g.calls) < size {
 		g.fam++
@@ -394,4 +403,94 @@ func flipCaseKeepOps(s string, r *rnd) string {
 		}
 	}
 	return strings.Join(parts, " ")
+}
+
+func contains(list []string, s string) bool {
+	for _, x := range list {
+		if x == s {
+			return true
+		}
+	}
+	return false
+}
+
+func mixedCase(s string) string {
+	b := []byte(s)
+	for i := range b {
+		if i%2 == 0 && b[i] >= 'a' && b[i] <= 'z' {
+			b[i] -= 32
+		} else if i%2 == 1 && b[i] >= 'A' && b[i] <= 'Z' {
+			b[i] += 32
+		}
+	}
+	return string(b)
+}
+
+// spellingFamilies picks per identifier category `per` ids (seeded) plus a few fixed
+// well-known ones and adds every spelling of each.
+func (g *corpusGen) spellingFamilies(per int) {
+	r := g.r
+	cats := make([][]string, 6)
+	inRange := map[string]bool{}
+	for _, grp := range g.ranged {
+		for _, id := range grp {
+			inRange[id] = true
+		}
+	}
+	for _, id := range g.active {
+		switch {
+		case strings.HasSuffix(id, "-only") || strings.HasSuffix(id, "-or-later"):
+			cats[2] = append(cats[2], strings.TrimSuffix(strings.TrimSuffix(id, "-only"), "-or-later"))
+		case inRange[id]:
+			cats[3] = append(cats[3], id)
+		default:
+			cats[0] = append(cats[0], id)
+		}
+	}
+	for _, id := range g.deprecated {
+		if contains(g.active, id+"-or-later") || contains(g.active, id+"-only") {
+			cats[1] = append(cats[1], id)
+		} else {
+			cats[5] = append(cats[5], id)
+		}
+	}
+	cats[4] = g.exceptions
+	chosen := []string{}
+	for _, fixed := range []string{"MIT", "GPL-2.0", "Apache-2.0", "ISC", "LGPL-3.0"} {
+		if contains(g.active, fixed) || contains(g.deprecated, fixed) {
+			chosen = append(chosen, fixed)
+		}
+	}
+	for _, c := range cats {
+		for k := 0; k < per && len(c) > 0; k++ {
+			id := c[r.n(len(c))]
+			if !contains(chosen, id) {
+				chosen = append(chosen, id)
+			}
+		}
+	}
+	exc := "Classpath-exception-2.0"
+	if !contains(g.exceptions, exc) && len(g.exceptions) > 0 {
+		exc = g.exceptions[0]
+	}
+	for _, b := range chosen {
+		g.fam++
+		lo, up, mx := strings.ToLower(b), strings.ToUpper(b), mixedCase(b)
+		sp := []string{b, lo, up, mx, b + "+", lo + "+", b + " +",
+			b + "-only", b + "-ONLY", b + "-Only", lo + "-only", up + "-ONLY",
+			b + "-or-later", b + "-OR-LATER", b + "-Or-Later", lo + "-or-later",
+			b + "-only+", b + "-or-later+",
+			b + " WITH " + exc, b + "+ WITH " + exc, b + " with " + exc, b + " WITH " + strings.ToLower(exc), b + "-only WITH " + exc}
+		for i, s := range sp {
+			g.add(proto.Call{Fn: proto.FnExtract, Expr: s, Fam: g.fam, Tag: "spell"})
+			g.add(proto.Call{Fn: proto.FnValidate, List: []string{s}, Fam: g.fam, Tag: "spell"})
+			g.add(proto.Call{Fn: proto.FnSatisfies, Expr: s, List: []string{b}, Fam: g.fam, Tag: "spell"})
+			if i%2 == 0 {
+				g.add(proto.Call{Fn: proto.FnSatisfies, Expr: b, List: []string{s}, Fam: g.fam, Tag: "spell"})
+			} else {
+				g.add(proto.Call{Fn: proto.FnSatisfies, Expr: s, List: []string{s, b + "+"}, Fam: g.fam, Tag: "spell"})
+			}
+		}
+		g.add(proto.Call{Fn: proto.FnValidate, List: sp, Fam: g.fam, Tag: "spell"})
+	}
 }
